@@ -36,8 +36,9 @@ VARIANTS = [
     V("tail-snaps-curr", BS, "            ys.append(interp.linear_interp(t0=prev_t, y0=prev_y, t1=curr_t, y1=curr_y, t=out_t))\n",
       "            ys.append(interp.linear_interp(t0=prev_t, y0=prev_y, t1=curr_t, y1=curr_y, t=out_t))\n            curr_t, curr_y = out_t, ys[-1]\n", rule="R12"),
     # twins
-    V("twin-interp-form", CORE + "interp.py", "y = (t1 - t) / (t1 - t0) * y0 + (t - t0) / (t1 - t0) * y1",
-      "w = (t - t0) / (t1 - t0)\n    y = y0 + w * (y1 - y0)", expect="silent"),
+    # once listed as a twin: equal over the reals, but not bit-identical at t = t1 (round-2 seed C13)
+    V("interp-increment-form-w", CORE + "interp.py", "y = (t1 - t) / (t1 - t0) * y0 + (t - t0) / (t1 - t0) * y1",
+      "w = (t - t0) / (t1 - t0)\n    y = y0 + w * (y1 - y0)", rule="R12.8"),
     V("twin-while-flip", BS, "while curr_t < out_t:", "while out_t > curr_t:", expect="silent"),
     V("twin-min-order", BS, "next_t = min(curr_t + step_size, ts[-1])", "next_t = min(ts[-1], step_size + curr_t)",
       expect="silent"),
@@ -52,4 +53,13 @@ VARIANTS += [
     V("grid-snap-sets-output-time", CORE + "base_solver.py", "                    next_t = ts[-1]\n", "                    next_t = out_t\n", rule="R12.1"),
     V("twin-grid-merge-le", CORE + "base_solver.py", SNAP, "                if ts[-1] - next_t <= 1e-3 * step_size:\n", expect="silent"),
     V("twin-grid-no-merge", CORE + "base_solver.py", SNAP, "                if ts[-1] - next_t < 0 * step_size:\n", expect="silent"),
+]
+
+LI = CORE + "interp.py"
+FORM = "    y = (t1 - t) / (t1 - t0) * y0 + (t - t0) / (t1 - t0) * y1\n"
+VARIANTS += [
+    V("interp-increment-form", LI, FORM, "    y = y0 + (t - t0) / (t1 - t0) * (y1 - y0)\n", rule="R12.8"),
+    V("interp-increment-from-right", LI, FORM, "    y = y1 - (t1 - t) / (t1 - t0) * (y1 - y0)\n", rule="R12.8"),
+    V("twin-interp-weights", LI, FORM, "    w = (t - t0) / (t1 - t0)\n    y = (1 - w) * y0 + w * y1\n", expect="silent"),
+    V("twin-interp-commuted", LI, FORM, "    y = (t - t0) / (t1 - t0) * y1 + (t1 - t) / (t1 - t0) * y0\n", expect="silent"),
 ]
